@@ -3,6 +3,8 @@ import MosnVerif.Lemmas.Correlate
 import MosnVerif.Model.StreamTableSpec
 import MosnVerif.Lemmas.DispatchCtx
 import MosnVerif.Model.DispatchCtxSpec
+import MosnVerif.Lemmas.BufReuse
+import MosnVerif.Lemmas.HpackOrder
 /-!
 # C02 — request/response correlation on an xprotocol client stream connection (property theorems only)
 
@@ -403,5 +405,149 @@ example : views requestOnlyShape true (run requestOnlyShape true [[o3], [q1]]) =
     ((run requestOnlyShape true [[o3], [q1]]).delivered.map (·.ctx)) = [0, 0] := by decide
 
 end DispatchContext
+
+/-! ## pooled per-request buffers (`httpBufferCtx.Reset`, Model/BufReuse.lean)
+
+`Gen.BufReset` is regenerated from the `Reset` methods of the pooled buffer contexts: the fields of each buffers struct
+and what `Reset` clears (the whole struct, a whole field, or only a sub-field such as `.Header`). -/
+section BufferReuse
+open MosnVerif.Model.BufReuse MosnVerif.Gen.BufReset
+
+/-- every regenerated `Reset` (HTTP/1 stream buffers, xprotocol stream buffers, proxy buffers, bolt / boltv2 codec
+buffers) resets EVERY field of its buffers struct as a whole; the HTTP/1 struct has the four messages of the model -/
+theorem reset_tables_complete : (all.all fullReset) = true ∧ covers http = true := by decide
+
+/-- **clean_reuse**: for EVERY sequence of exchanges (forwarded or not, with and without request body, upstream answer
+with / without body, HEAD, local reply, direct response with / without body), EVERY initial pool of clean objects and
+EVERY hand-out order of the pool (`pick` per exchange: any pooled object or a new one), what the client and the
+upstream receive for exchange k is what they would receive from a fresh object, and it carries only tokens of
+exchange k: planned status, own header tokens, exactly the planned body (none for a body-less answer), and the upstream
+sees the request with exactly its own body. -/
+theorem clean_reuse (xs : List (Ex × Nat)) (pool : List Obj) (hp : ∀ o ∈ pool, o = Obj.zero) :
+    run http pool xs = xs.map (fun x => (serve Obj.zero x.1).2) ∧
+    ∀ x ∈ xs, ownOut x.1 (serve Obj.zero x.1).2 = true :=
+  ⟨run_zero (by decide) reset_tables_complete.2 xs pool hp, fun x _ => serve_zero_own x.1⟩
+
+/-- the same for any buffer context whose regenerated table is complete (the statement the other contexts instantiate) -/
+theorem clean_reuse_of_complete (c : BufCtx) (hf : fullReset c = true) (hc : covers c = true)
+    (xs : List (Ex × Nat)) (pool : List Obj) (hp : ∀ o ∈ pool, o = Obj.zero) :
+    ∀ (i : Nat) (o : Out), (run c pool xs)[i]? = some o → ∃ x : Ex × Nat, xs[i]? = some x ∧ ownOut x.1 o = true := by
+  intro i o h
+  rw [run_zero hf hc xs pool hp, List.getElem?_map] at h
+  cases hx : xs[i]? with
+  | none => simp [hx] at h
+  | some x =>
+    simp only [hx, Option.map_some, Option.some.injEq] at h
+    exact ⟨x, rfl, h ▸ serve_zero_own x.1⟩
+
+/-- the executable predicate of the `h1b` cases holds of the model's output -/
+theorem h1b_spec_holds_on_model (exs : List Ex) :
+    ∀ o ∈ (run http [] (exs.map (fun e => (e, 0)))).zip exs, ownOut o.2 o.1 = true := by
+  intro o ho
+  rw [run_zero (by decide) reset_tables_complete.2 _ [] (by intro _ h; cases h)] at ho
+  simp only [List.map_map] at ho
+  have : ∀ (l : List Ex) (o : Out × Ex), o ∈ (l.map ((fun x : Ex × Nat => (serve Obj.zero x.1).2) ∘ fun e => (e, 0))).zip l →
+      ownOut o.2 o.1 = true := by
+    intro l
+    induction l with
+    | nil => intro o h; cases h
+    | cons e es ih =>
+      intro o h
+      simp only [List.map_cons, List.zip_cons_cons, List.mem_cons] at h
+      rcases h with h | h
+      · rw [h]; exact serve_zero_own e
+      · exact ih o h
+  exact this exs o ho
+
+/-! ### non-vacuity, and what a partial Reset does -/
+def exUp (k : Nat) (body : Bool) : Ex := ⟨k, true, false, false, some body, none, 200⟩
+def exNoRoute (k : Nat) : Ex := ⟨k, false, false, false, none, none, 404⟩
+def exPost (k : Nat) : Ex := ⟨k, true, false, true, some false, none, 200⟩
+/-- the seeded change: only the header of serverResponse is reset -/
+def partialHttp : BufCtx := { http with clears := http.clears.map (fun p => if p.1 == "serverResponse" then (p.1, ["Header"]) else p) }
+example : fullReset partialHttp = false := by decide
+-- an answer with a body, then a 404 on the recycled object: with the regenerated Reset the 404 has no body ...
+example : (run http [] [(exUp 0 true, 0), (exNoRoute 1, 0)]).map (·.respB) = [["r0"], []] := by decide
+-- ... with the partial Reset it carries the body of exchange 0, and so does a later upstream answer without body
+example : (run partialHttp [] [(exUp 0 true, 0), (exNoRoute 1, 0), (exUp 2 false, 0)]).map (·.respB) = [["r0"], ["r0"], ["r0"]] := by decide
+example : (run partialHttp [] [(exUp 0 true, 0), (exNoRoute 1, 0)]).map (ownOut (exNoRoute 1)) = [false, false] := by decide
+-- a new object instead of the recycled one hides it: the hand-out order matters once Reset is partial
+example : (run partialHttp [] [(exUp 0 true, 0), (exNoRoute 1, 7)]).map (·.respB) = [["r0"], []] := by decide
+-- client side: clientRequest not reset => a later body-less request carries an earlier request's body upstream
+def partialClient : BufCtx := { http with clears := http.clears.filter (fun p => p.1 != "clientRequest") }
+example : ((run partialClient [] [(exPost 0, 0), (exUp 1 false, 0)]).map (·.up)) =
+    [some (["q0"], ["q0"]), some (["q1"], ["q0"])] := by decide
+
+end BufferReuse
+
+/-! ## HPACK encode / write atomicity on one HTTP/2 connection (Model/HpackOrder.lean)
+
+`Gen.H2WriteLock`: for `MServerConn.writeHeaders`, `MClientConn.WriteHeaders` and the trailers of
+`MClientStream.writeDataAndTrailer`, the lock / unlock / deferred unlock / HPACK-encode / frame-write actions in source
+order (HEADERS and CONTINUATION writes alike), regenerated on each run. -/
+section HpackWriteOrder
+open MosnVerif.Model.HpackOrder MosnVerif.Gen.H2WriteLock
+
+/-- in every regenerated function some mutex is held without interruption from before the first encode action until
+after the last frame write (CONTINUATIONs included): a call is ONE step of the connection -/
+theorem h2_write_lock_discipline : fns.all (fun f => atomicEncWrite f.acts) = true ∧
+    fns.all (fun f => units f.acts == [U.both]) = true := by decide
+
+/-- HPACK table discipline: whatever the table, a block decodes to the header list it was encoded from and leaves the
+decoder's table equal to the encoder's -/
+theorem hpack_block_sync (cap : Nat) (t : Model.HpackOrder.Table) (fs : List Field) :
+    decBlock cap t (encBlock cap t fs).2 = some ((encBlock cap t fs).1, fs) := dec_enc_block cap fs t
+
+/-- **hpack_wire_order**: for each of the regenerated functions, ANY number of concurrent writers (one header block
+each, any header lists, any table capacity) and EVERY interleaving: a peer decoding the blocks in wire order with one
+table reconstructs, block by block, exactly (stream, header list) as encoded — every decoded pair is the pair of one of
+the writers —, the tables agree, and no encoded block is left unwritten. -/
+theorem hpack_wire_order (f : Fn) (hf : f ∈ fns) (cap : Nat) (reqs : List (Nat × List Field)) (sched : List Nat) :
+    decAll cap [] ((Sys.start cap reqs (units f.acts)).run sched).wire =
+      some (((Sys.start cap reqs (units f.acts)).run sched).encT, ((Sys.start cap reqs (units f.acts)).run sched).sent) ∧
+    (∀ x ∈ ((Sys.start cap reqs (units f.acts)).run sched).sent, x ∈ reqs) ∧
+    ((Sys.start cap reqs (units f.acts)).run sched).pending = [] := by
+  have hu : units f.acts = [U.both] := by
+    have := (List.all_eq_true.mp h2_write_lock_discipline.2) f hf
+    simpa using this
+  rw [hu]
+  have hi := inv_run (inv_start cap reqs) sched
+  have hc := run_cap (Sys.start cap reqs [U.both]) sched
+  refine ⟨?_, ?_, hi.nopending⟩
+  · have h := dec_enc_all cap ((Sys.start cap reqs [U.both]).run sched).sent []
+    have hs := hi.sync
+    rw [hc.1] at hs
+    have hcap : (Sys.start cap reqs [U.both]).cap = cap := rfl
+    rw [hcap] at hs
+    rw [hs] at h
+    exact h
+  · intro x hx
+    have := hi.own x hx
+    rw [hc.2] at this
+    exact this
+
+/-! ### non-vacuity, and what the seeded change does -/
+def p0 : Field := ("x-p0", "v0")
+def p1 : Field := ("x-p1", "v1")
+def p2 : Field := ("x-p2", "v2")
+def wreqs : List (Nat × List Field) := [(1, [("x-u0", "r0"), p1]), (3, [p2, ("x-u1", "r1")]), (5, [p0, p1, p2])]
+-- writer 2 warms the table, then writers 0 and 1 in either order: the peer sees what was sent
+example : (decAll 8 [] ((Sys.start 8 wreqs (units serverWriteHeaders.acts)).run [2, 1, 0]).wire).map (·.2) =
+    some [(5, [p0, p1, p2]), (3, [p2, ("x-u1", "r1")]), (1, [("x-u0", "r0"), p1])] := by decide
+-- the mutex released between encoding and writing: two steps per call ...
+def leaky : List Act := [.lock "mu", .enc, .enc, .unlock "mu", .wr, .wr]
+example : atomicEncWrite leaky = false ∧ units leaky = [U.enc, U.wr] := by decide
+-- ... a lock taken again only around the write does not help either
+example : atomicEncWrite [.lock "mu", .enc, .unlock "mu", .lock "mu", .wr, .unlock "mu"] = false := by decide
+-- a trailing unlock after the last write is fine
+example : atomicEncWrite [.lock "mu", .enc, .wr, .wr, .unlock "mu"] = true := by decide
+-- writer 0 encodes, writer 1 encodes and writes, writer 0 writes: both streams SILENTLY get the other's pool value
+-- (x-p1 for x-p2 and vice versa): no decoding error, wrong header values
+example : (decAll 8 [] ((Sys.start 8 wreqs (units leaky)).run [2, 2, 0, 1, 1, 0]).wire).map (·.2) =
+    some [(5, [p0, p1, p2]), (3, [p1, ("x-u1", "r1")]), (1, [("x-u0", "r0"), p2])] := by decide
+-- without a warm table the lagging decoder fails outright
+example : decAll 8 [] ((Sys.start 8 [(1, [p0]), (3, [p0])] (units leaky)).run [0, 1, 1, 0]).wire = none := by decide
+
+end HpackWriteOrder
 
 end MosnVerif.Props.C02
